@@ -50,11 +50,67 @@ def build(ctx, rng, cond, shape=(3, 2, 2)):
     L.populate(a, rng)
     for di, d in enumerate(a.disks):
         a.write(d, 'z%d' % di, rng.randbytes(1500), mtime_ns=(T0 + 1000 + di) * 10**9)        # nanoseconds = 0: touch candidates
+    # a hardlink, two files with equal content (dup), the same path on two disks (pool duplicate)
+    os.link(a.path(a.disks[0], 'a0'), a.path(a.disks[0], 'hl0'))
+    same = rng.randbytes(2100)
+    a.write(a.disks[1], 'dupA', same, mtime_ns=(T0 + 2000) * 10**9 + 11)
+    a.write(a.disks[nd - 1], 'dir/dupB', same, mtime_ns=(T0 + 2001) * 10**9 + 12)
+    a.write(a.disks[0], 'common', rng.randbytes(700), mtime_ns=(T0 + 2002) * 10**9 + 13)
+    a.write(a.disks[1], 'common', rng.randbytes(900), mtime_ns=(T0 + 2003) * 10**9 + 14)
+    if cond == 'never_synced':
+        return a
     r = a.run('sync')
     if r.rc != 0:
         raise RuntimeError('initial sync failed: %r' % r)
     if cond == 'healthy':
         pass
+    elif cond == 'sizes_changed':
+        # a file grown since the sync (fix truncates it: "Fixed size"), a recorded empty file that now has data, a file shortened
+        for d, n, extra in ((a.disks[0], 'c0', 3000), (a.disks[1], 'f1', 10)):
+            p = a.path(d, n)
+            a.write(d, n, open(p, 'rb').read() + rng.randbytes(extra))
+        a.write(a.disks[0], 'e00', b'no longer empty')
+        p = a.path(a.disks[1], 'dir/b1')
+        a.write(a.disks[1], 'dir/b1', open(p, 'rb').read()[:100])
+        # same size and time, larger on disk is impossible; but larger with the RECORDED time: fix must give the time back
+        p = a.path(a.disks[2 % nd], 'f%d' % (2 % nd)); st0 = os.stat(p)
+        a.write(a.disks[2 % nd], 'f%d' % (2 % nd), open(p, 'rb').read() + b'tail', mtime_ns=st0.st_mtime_ns)
+    elif cond == 'hardlinks_damaged':
+        os.unlink(a.path(a.disks[0], 'hl0'))                       # hardlink missing
+        if rng.random() < 0.5:
+            a.write(a.disks[0], 'hl0', b'an independent file')     # ... or replaced by a file of its own
+    elif cond == 'data_and_parity_damaged':
+        # silent damage in data AND in the parity of the same stripes: fix has to find out which is wrong
+        for d, n, off in ((a.disks[0], 'a0', 7), (a.disks[1], 'f1', 2100)):
+            p = a.path(d, n); st0 = os.stat(p)
+            with open(p, 'r+b') as f:
+                f.seek(off); f.write(b'QQQ')
+            os.utime(p, ns=(st0.st_atime_ns, st0.st_mtime_ns))
+        f = a.parity_files[0][0]
+        data = bytearray(open(f, 'rb').read())
+        data[3] ^= 0x55; data[1024 * 6 + 9] ^= 0x55
+        open(f, 'wb').write(data)
+    elif cond == 'killed_sync':
+        # a sync that updated the parity but never saved its final state, then a loss
+        for di, d in enumerate(a.disks):
+            a.write(d, 'new%d' % di, rng.randbytes(2500))
+            a.write(d, 'f%d' % di, rng.randbytes(4000))
+        os.unlink(a.path(a.disks[0], 'c0'))
+        r = a.run('sync', '--test-kill-after-sync')
+        os.unlink(a.path(a.disks[1], 'new1'))
+        os.unlink(a.path(a.disks[0], 'a0'))
+    elif cond == 'partial_sync':
+        # pending changes, a sync limited to the first stripes (CHG / REP / DELETED blocks stay), then more loss
+        for di, d in enumerate(a.disks):
+            a.write(d, 'new%d' % di, rng.randbytes(2500))
+            os.unlink(a.path(d, 'c%d' % di))
+            a.write(d, 'f%d' % di, rng.randbytes(4000))
+        r = a.run('sync', '-B', '3')
+        if r.rc != 0:
+            raise RuntimeError('partial sync failed: %r' % r)
+        os.unlink(a.path(a.disks[0], 'new0'))
+        os.unlink(a.path(a.disks[1], 'a1'))
+        a.write(a.disks[nd - 1], 'late', rng.randbytes(1200))
     elif cond == 'unsynced':
         for di, d in enumerate(a.disks):
             a.write(d, 'new%d' % di, rng.randbytes(2500))
@@ -100,18 +156,32 @@ def build(ctx, rng, cond, shape=(3, 2, 2)):
         shutil.rmtree(a.path(a.disks[0], 'dir'))
     else:
         raise KeyError(cond)
+    if cond != 'never_synced' and rng.random() < 0.5:
+        # stale entries in the pool directory: an old link, an empty sub directory, a plain file
+        pd = os.path.join(a.root, 'pool')
+        os.makedirs(os.path.join(pd, 'olddir', 'deeper'), exist_ok=True)
+        os.symlink('/nowhere/stale', os.path.join(pd, 'stale_link'))
+        os.symlink('/nowhere/stale2', os.path.join(pd, 'olddir', 'stale2'))
+        open(os.path.join(pd, 'plainfile'), 'w').write('not a link')
     return a
 
 
-CONDS_QUICK = ['healthy', 'unsynced', 'damaged', 'disk_emptied', 'parity_deleted', 'content_deleted', 'parity_damaged', 'links_damaged']
+CONDS_QUICK = ['healthy', 'unsynced', 'damaged', 'disk_emptied', 'parity_deleted', 'content_deleted', 'parity_damaged', 'links_damaged',
+               'sizes_changed', 'hardlinks_damaged', 'partial_sync', 'never_synced', 'data_and_parity_damaged', 'killed_sync']
 
 RO_CMDS = [('status', []), ('diff', []), ('list', []), ('dup', []), ('check', []), ('check', ['-a']), ('check', ['-v']),
            ('check', ['-f', '/a0']), ('check', ['-d', 'd1']), ('check', ['-m']), ('check', ['-e']), ('check', ['-a', '-d', 'd2']),
-           ('devices', []), ('status', ['-v']), ('list', ['-v'])]
-SCRUB_CMDS = [('scrub', []), ('scrub', ['-p', 'full']), ('scrub', ['-p', 'new']), ('scrub', ['-p', 'bad']), ('scrub', ['-p', '50', '-o', '0'])]
-SYNC_CMDS = [('sync', []), ('sync', ['-h']), ('sync', ['-F']), ('sync', ['-B', '2']), ('sync', ['-N']), ('sync', ['-R'])]
+           ('devices', []), ('status', ['-v']), ('list', ['-v']), ('dup', ['-v']), ('diff', ['-v']), ('check', ['-G']), ('status', ['-G']),
+           ('diff', ['-G']), ('check', ['-S', '100000']), ('check', ['-S', '2', '-B', '3']), ('check', ['-b']), ('list', ['-G'])]
+SCRUB_CMDS = [('scrub', []), ('scrub', ['-p', 'full']), ('scrub', ['-p', 'new']), ('scrub', ['-p', 'bad']), ('scrub', ['-p', '50', '-o', '0']),
+              ('scrub', ['-p', 'full', '-o', '5']), ('scrub', ['--test-force-scrub-even']), ('scrub', ['--test-force-scrub-at', '3']),
+              ('scrub', ['-p', 'full', '--test-force-autosave-at', '1']), ('scrub', ['-p', '100', '-o', '0', '-v'])]
+SYNC_CMDS = [('sync', []), ('sync', ['-h']), ('sync', ['-F']), ('sync', ['-B', '2']), ('sync', ['-N']), ('sync', ['-R']),
+             ('sync', ['--test-force-autosave-at', '2']), ('sync', ['-S', '100000']), ('sync', ['-S', '1', '-B', '2']), ('sync', ['-h', '-v']),
+             ('sync', ['-G'])]
 FIX_CMDS = [('fix', []), ('fix', ['-m']), ('fix', ['-f', '/a0']), ('fix', ['-d', 'd1']), ('fix', ['-e']), ('fix', ['-d', 'parity']),
-            ('fix', ['-d', 'd2', '-d', '2-parity']), ('fix', ['-f', '/dir/sub/d1', '-f', '/ln0']), ('fix', ['-B', '3'])]
+            ('fix', ['-d', 'd2', '-d', '2-parity']), ('fix', ['-f', '/dir/sub/d1', '-f', '/ln0']), ('fix', ['-B', '3']),
+            ('fix', ['-S', '100000']), ('fix', ['-v']), ('fix', ['-f', '/hl0', '-f', '/e00']), ('fix', ['-b']), ('fix', ['-N'])]
 OTHER_CMDS = [('pool', []), ('touch', [])]
 
 
@@ -192,7 +262,7 @@ def reported_objects(tags, arr):
     return rep
 
 
-def judge(ctx, a, paths, o, cond, st_before, replay):
+def judge(ctx, a, paths, o, cond, st_before, replay, ignore=()):
     """the property, judged without the Coq model"""
     cmd, opts = o.cmd, o.opts
     rep = dict(replay)
@@ -214,6 +284,8 @@ def judge(ctx, a, paths, o, cond, st_before, replay):
     # ---- (i) the shim's write set
     for cl, kind, r in o.eff:
         ctx.effects_seen += 1
+        if r['path'] in ignore:
+            continue
         t = cl[0]
         if t in ('lock', 'log', 'shimlog'):
             continue
@@ -276,8 +348,11 @@ def judge(ctx, a, paths, o, cond, st_before, replay):
             continue
         bad('other', '%s %s (%s): not a data, parity, content, pool, lock or log path' % (r['call'], r['path'], kind))
     # ---- (ii) the snapshot
+    ign_cl = set(paths.classify(x) for x in ignore)
     for cl, what, b4, af in o.diff:
         t = cl[0]
+        if cl in ign_cl:
+            continue          # changed by the harness itself while the command ran (--test-run disturbance)
         if t in ('lock', 'log'):
             continue
         if t == 'content':
@@ -313,6 +388,14 @@ def judge(ctx, a, paths, o, cond, st_before, replay):
                     ctx.viol('touch_nonzero', 'touch changed the sub-second time of %s:%s although it was not zero on disk (%d ns): the recorded value was 0 but the file had been modified since' % (dn, rel, b4[2] % 10**9), rep)
                 continue
             if cmd == 'fix':
+                if what == 'nlink':
+                    continue          # a hard link to / from this inode was made or removed under another name, judged there
+                # other names of the same inode: a change seen through a hardlink is the change of the file it links to
+                full = os.path.join(a.root, dn, rel)
+                inos = set(x[3] for x in (b4, af) if x and x[0] == 'f')
+                aliases = [q for snap_ in (o.before, o.after) for q, v in snap_.items() if q != full and v[0] == 'f' and v[3] in inos and v[4] > 1]
+                if any(paths.classify(q)[0] == 'data' and (a.disks[paths.classify(q)[1]], paths.classify(q)[2]) in reported for q in aliases) and 'inode' not in what:
+                    continue
                 base = rel[:-len('.unrecoverable')] if rel.endswith('.unrecoverable') else rel
                 ent = rec.get((di, base))
                 if ent is None:
@@ -366,8 +449,12 @@ def extend_summary(ctx, a, paths, cmd, opts, d, cond, o_before_snapshot, faulty)
             d['scrub_errors'] = False
         else:
             unk.append('scrub_errors'); space['scrub_errors'] = [False, True]
+    if cmd in ('check', 'fix') and st is not None:
+        d['blockmax'] = st['blockmax']
+        d['_unknown'] = [u for u in d['_unknown'] if u != 'blockmax']
+        unk = d['_unknown']
     if cmd == 'sync':
-        if faulty or cond in ('damaged', 'parity_damaged'):
+        if faulty or not healthy:
             unk.append('sync_errors'); space['sync_errors'] = [False, True]
         if '-h' in opts and (faulty or cond == 'damaged'):
             unk.append('prehash_fail'); space['prehash_fail'] = [False, True]
@@ -425,7 +512,8 @@ def extend_summary(ctx, a, paths, cmd, opts, d, cond, o_before_snapshot, faulty)
             elif kind == 'link':
                 k = 'hardlink' if ent['hard'] else 'symlink'
                 if ent['hard']:
-                    state = 'good' if (os.path.isfile(p) and not missing) else 'rec'
+                    tp = a.path(dn, ent['to'].decode('latin1'))
+                    state = 'good' if (os.path.isfile(p) and not os.path.islink(p) and os.path.isfile(tp) and os.stat(p).st_ino == os.stat(tp).st_ino) else 'rec'
                 else:
                     state = 'good' if (os.path.islink(p) and os.readlink(p) == ent['to'].decode('latin1')) else 'rec'
             else:
@@ -475,7 +563,7 @@ def completions(d):
         elif u in ('parity_resize', 'parity_modified'):
             spaces.append([(u, list(c)) for c in itertools.product([False, True], repeat=np_)])
         elif u == 'blockmax':
-            spaces.append([(u, 10 ** 6)])
+            spaces.append([(u, d.get('_blockmax_guess', 10 ** 6))])
         else:
             raise KeyError(u)
     for combo in itertools.product(*spaces):
@@ -497,7 +585,7 @@ def completions(d):
         yield dd
 
 
-def tie(ctx, a, paths, o, d, cond, replay, faulty):
+def tie(ctx, a, paths, o, d, cond, replay, faulty, ignore=()):
     cmd, opts = o.cmd, o.opts
     reqs = []
     for dd in completions(d):
@@ -515,6 +603,13 @@ def tie(ctx, a, paths, o, d, cond, replay, faulty):
         return
     ctx.model_cmp += 1
     obs = L.observed_coarse(o) - {('WLog',)}
+    if ignore:
+        # data paths changed by the harness itself during the run (--test-run disturbance) are not effects of the command
+        ign_cl = set(paths.classify(x) for x in ignore)
+        other = any(cl[0] == 'data' and cl not in ign_cl for cl, what, b4, af in o.diff) or \
+            any(cl[0] == 'data' and r['path'] not in ignore for cl, k, r in o.eff)
+        if not other:
+            obs = obs - {('WData',)}
     failing = o.rc != 0
     why = []
     for ex, effs, reps in preds:
@@ -539,10 +634,10 @@ def needs_force(cond, cmd):
     return ['--force-empty'] if (cmd == 'sync' and cond == 'disk_emptied') else []
 
 
-def one_run(ctx, a, paths, cmd, opts, cond, replay, fail=None):
+def one_run(ctx, a, paths, cmd, opts, cond, replay, fail=None, ignore=(), disturbed=False):
     st, ok, idx = L.load_state(a)
     d = L.presummary(a, paths, cmd, opts)
-    d = extend_summary(ctx, a, paths, cmd, opts, d, cond, None, fail is not None)
+    d = extend_summary(ctx, a, paths, cmd, opts, d, cond, None, fail is not None or disturbed)
     o = L.observe(a, paths, cmd, opts, fail=fail)
     with ctx.lock:
         ctx.runs += 1
@@ -555,9 +650,9 @@ def one_run(ctx, a, paths, cmd, opts, cond, replay, fail=None):
     if o.rc in (-11, 139, -999) or (o.rc == -6 and 'Assertion' in o.r.err):
         ctx.viol('crash', '`%s %s` on a %s array crashed or hung (rc %d)%s: %s' % (cmd, ' '.join(opts), cond, o.rc, ' under fault ' + fail if fail else '', o.r.err[-200:]),
                  dict(replay, command=[cmd] + list(opts), condition=cond, fail=fail))
-    judge(ctx, a, paths, o, cond, st, dict(replay, fail=fail))
+    judge(ctx, a, paths, o, cond, st, dict(replay, fail=fail), ignore=ignore)
     if fail is None:
-        tie(ctx, a, paths, o, d, cond, replay, False)
+        tie(ctx, a, paths, o, d, cond, replay, False, ignore=ignore)
     return o
 
 
@@ -668,6 +763,92 @@ def scenario_fix_corner(ctx, seed, variant, np_=1):
         shutil.rmtree(a.root, ignore_errors=True)
 
 
+SYNC_DISTURB = ['prehash_file_removed', 'prehash_file_changed', 'prehash_data_eio', 'file_removed_after_scan', 'file_changed_after_scan', 'file_grown_after_scan', 'data_eio', 'parity_pwrite_eio', 'parity_pwrite_eio_late',
+                'silent_in_synced_stripe', 'prehash_unsynced', 'prehash_changed_copy', 'autosave_unsynced', 'new_file_unreadable']
+
+
+def scenario_sync_disturbed(ctx, seed, variant, shape=(3, 2, 2)):
+    """sync while things go wrong: files vanish or change between the scan and the sync (--test-run), read and write errors
+    (shim), silent damage in a stripe that is recomputed, pre-hash, autosave: whatever the exit status, no path inside a data
+    disk is written and nothing outside content / parity / lock / log changes"""
+    rng = random.Random(seed)
+    a = build(ctx, rng, 'unsynced', shape)
+    paths = L.Paths(a)
+    replay = {'seed': seed, 'scenario': 'sync_disturbed', 'variant': variant, 'shape': shape}
+    try:
+        opts, fail, ignore = [], None, ()
+        victim = a.path(a.disks[0], 'new0')
+        if variant == 'file_removed_after_scan':
+            opts = ['--test-run', 'env -u LD_PRELOAD rm -f %s' % victim]; ignore = (victim,)
+        elif variant == 'file_changed_after_scan':
+            opts = ['--test-run', "env -u LD_PRELOAD sh -c 'sleep 0.01; echo changed > %s'" % victim]; ignore = (victim,)
+        elif variant == 'file_grown_after_scan':
+            opts = ['--test-run', "env -u LD_PRELOAD sh -c 'echo more >> %s'" % victim]; ignore = (victim,)
+        elif variant == 'prehash_file_removed':
+            opts = ['-h', '--test-run', 'env -u LD_PRELOAD rm -f %s' % victim]; ignore = (victim,)
+        elif variant == 'prehash_file_changed':
+            opts = ['-h', '--test-run', "env -u LD_PRELOAD sh -c 'sleep 0.01; echo changed > %s'" % victim]; ignore = (victim,)
+        elif variant == 'prehash_data_eio':
+            opts = ['-h']; fail = 'pread:/d1/new0:1:5'
+        elif variant == 'data_eio':
+            fail = 'pread:/d1/new0:1:5'
+        elif variant == 'parity_pwrite_eio':
+            fail = 'pwrite:.parity:1:5'
+        elif variant == 'parity_pwrite_eio_late':
+            fail = 'pwrite:par1_0.parity:3:28'
+        elif variant == 'silent_in_synced_stripe':
+            p = a.path(a.disks[1], 'a1'); st0 = os.stat(p)
+            with open(p, 'r+b') as f:
+                f.seek(3); f.write(b'ZZ')
+            os.utime(p, ns=(st0.st_atime_ns, st0.st_mtime_ns))
+            opts = ['-F']
+        elif variant == 'prehash_unsynced':
+            opts = ['-h']
+        elif variant == 'prehash_changed_copy':
+            # a new file that scan takes as a COPY of a synced one (same name, size, time) but whose bytes differ: pre-hash finds it
+            src = a.path(a.disks[1], 'dupA'); st0 = os.stat(src)
+            a.write(a.disks[0], 'dupA', rng.randbytes(st0.st_size), mtime_ns=st0.st_mtime_ns)
+            opts = ['-h']
+        elif variant == 'autosave_unsynced':
+            opts = ['--test-force-autosave-at', '1']
+        elif variant == 'new_file_unreadable':
+            os.chmod(victim, 0)
+            if os.geteuid() == 0:
+                fail = 'open:/d1/new0:1:13'
+        one_run(ctx, a, paths, 'sync', opts, 'sync_disturbed:' + variant, replay, fail=fail, ignore=ignore, disturbed=True)
+        # the array must still be usable by the next sync (and that one writes no data file either)
+        if os.path.exists(victim):
+            os.chmod(victim, 0o644)
+        one_run(ctx, a, paths, 'sync', [], 'sync_disturbed:' + variant + '+next sync', replay, disturbed=True)
+    finally:
+        shutil.rmtree(a.root, ignore_errors=True)
+
+
+def scenario_import(ctx, seed, cmd, cond):
+    """check / fix with -i <dir>: files of the import directory are read to recover lost data, never changed"""
+    rng = random.Random(seed)
+    a = build(ctx, rng, 'healthy')
+    paths = L.Paths(a)
+    replay = {'seed': seed, 'scenario': 'import', 'command': cmd, 'cond': cond}
+    try:
+        imp = os.path.join(a.root, 'imp', 'sub')
+        os.makedirs(imp)
+        # copies (with their time-stamps) of files that are then lost together with more data than parity can rebuild
+        lost = [(a.disks[0], 'a0'), (a.disks[1], 'a1'), (a.disks[2], 'a2'), (a.disks[0], 'f0')]
+        for d, n in lost[:3]:
+            src = a.path(d, n); st0 = os.stat(src)
+            dst = os.path.join(imp, 'saved_' + n)
+            shutil.copyfile(src, dst); os.utime(dst, ns=(st0.st_mtime_ns, st0.st_mtime_ns))
+        open(os.path.join(imp, 'unrelated'), 'wb').write(rng.randbytes(3000))
+        for d, n in lost:
+            os.unlink(a.path(d, n))
+        if os.path.lexists(a.path(a.disks[0], 'hl0')):
+            os.unlink(a.path(a.disks[0], 'hl0'))
+        one_run(ctx, a, paths, cmd, ['-i', os.path.join(a.root, 'imp')], 'import:' + cond, replay)
+    finally:
+        shutil.rmtree(a.root, ignore_errors=True)
+
+
 def scenario_corpus(ctx, path):
     """regression cases of corpus/C12/*.json (run on every check, first)"""
     c = json.load(open(path))
@@ -745,8 +926,12 @@ def main(tier, replay=None):
             muts = SCRUB_CMDS + SYNC_CMDS + FIX_CMDS + OTHER_CMDS
             if not thorough:
                 # quick: every mutating command on every condition, option variants rotated over the conditions
-                pick = [SCRUB_CMDS[k % len(SCRUB_CMDS)], SCRUB_CMDS[1], SYNC_CMDS[0], SYNC_CMDS[1 + k % (len(SYNC_CMDS) - 1)],
-                        FIX_CMDS[0], FIX_CMDS[1], FIX_CMDS[2 + k % (len(FIX_CMDS) - 2)], FIX_CMDS[2 + (k + 3) % (len(FIX_CMDS) - 2)]] + OTHER_CMDS
+                pick = [SCRUB_CMDS[k % len(SCRUB_CMDS)], SCRUB_CMDS[1], SCRUB_CMDS[(k + 5) % len(SCRUB_CMDS)],
+                        SYNC_CMDS[0], SYNC_CMDS[1 + k % (len(SYNC_CMDS) - 1)], SYNC_CMDS[1 + (k + 5) % (len(SYNC_CMDS) - 1)],
+                        FIX_CMDS[0], FIX_CMDS[1], FIX_CMDS[2 + k % (len(FIX_CMDS) - 2)], FIX_CMDS[2 + (k + 3) % (len(FIX_CMDS) - 2)],
+                        FIX_CMDS[2 + (k + 7) % (len(FIX_CMDS) - 2)]] + OTHER_CMDS
+                if cond in ('hardlinks_damaged', 'links_damaged', 'sizes_changed'):
+                    pick += [('fix', ['-f', '/hl0', '-f', '/e00']), ('fix', ['-v'])]
                 if cond in ('parity_damaged', 'parity_deleted'):
                     # levels excluded by the filters must stay untouched however wrong they are
                     pick += [('fix', ['-d', 'd1']), ('fix', ['-f', '/a0']), ('fix', ['-d', 'd2', '-d', '2-parity'])]
@@ -764,6 +949,14 @@ def main(tier, replay=None):
     for i, v in enumerate(FIX_CORNERS):
         for np_ in ([1] if not thorough else [1, 2]):
             jobs.append((scenario_fix_corner, (rng.getrandbits(30), v, np_)))
+    for v in SYNC_DISTURB:
+        for shp in ([shapes[0]] if not thorough else [shapes[0], shapes[1], shapes[3]]):
+            jobs.append((scenario_sync_disturbed, (rng.getrandbits(30), v, shp)))
+    for c_, o_, f_ in ((('scrub', ['-p', 'full'], 'pread:/d1/:2:5')), ('scrub', ['-p', 'full'], 'pread:.parity:2:5'), ('scrub', ['-p', 'full', '--test-force-autosave-at', '1'], None),
+                       ('scrub', ['-p', 'full'], 'open:/d2/f1:1:5')):
+        jobs.append((scenario_mutating, (rng.getrandbits(30), 'healthy', shapes[0], c_, o_, f_, None)))
+    for c in ('fix', 'check'):
+        jobs.append((scenario_import, (rng.getrandbits(30), c, 'three files lost, copies in the import directory')))
     # injected read errors: the documented sets hold on runs that end in errors too
     faults = []
     fcmds = [('check', []), ('scrub', ['-p', 'full']), ('sync', []), ('fix', []), ('fix', ['-m']), ('sync', ['-h']), ('check', ['-a'])]
@@ -801,5 +994,7 @@ def main(tier, replay=None):
                         'fix may create missing ancestor directories of a selected recorded object (mkancestor); they are allowed without a report of their own',
                         'atime changes are not observed (data files are opened O_NOATIME when permitted)',
                         'the model gives effect classes; which stripes / blocks are written is the subject of C06 C05 C11',
-                        'rehash, up, down, smart and the test-* commands are outside the property text and not modelled']
+                        'rehash, up, down, smart and the test-* commands are outside the property text and not modelled',
+                        'exercised by the oracle only (the model gives effect classes and an exit class that is enumerated): sync under disturbance (files removed / changed / grown between scan and sync, data read EIO, parity write EIO, silent damage in a recomputed stripe, pre-hash with vanished / changed / unreadable files and with a false copy, autosave), scrub plans even / at / autosave and scrub read errors, check/fix on arrays left by a partial sync (-B) or by a sync killed before its final save (CHG / REP / DELETED blocks), data and parity damaged together, import directories (-i), grown / shortened files, hardlink repair, duplicates, stale pool entries, report variants (-v, -G)',
+                        'not exercised: object type swaps (a recorded file now a directory and vice versa: fix bails with a fatal error), inode-collision branch of file_post (tmpfs never reuses inodes), -D / skip_access, --test-expect-*, share option of pool, Windows and out-of-memory branches']
     return chk.finish()
